@@ -991,3 +991,9 @@ package parse
 //@   ensures binary: binaryOperators["or"].precedence == 10 && binaryOperators["or"].assoc == 0 && binaryOperators["or"].op == "or" && binaryOperators["and"].precedence == 15 && binaryOperators["and"].assoc == 0 && binaryOperators["and"].op == "and" && binaryOperators["b-or"].precedence == 16 && binaryOperators["b-or"].assoc == 0 && binaryOperators["b-or"].op == "b-or" && binaryOperators["b-xor"].precedence == 17 && binaryOperators["b-xor"].assoc == 0 && binaryOperators["b-xor"].op == "b-xor" && binaryOperators["b-and"].precedence == 18 && binaryOperators["b-and"].assoc == 0 && binaryOperators["b-and"].op == "b-and" && binaryOperators["=="].precedence == 20 && binaryOperators["=="].assoc == 0 && binaryOperators["=="].op == "==" && binaryOperators["!="].precedence == 20 && binaryOperators["!="].assoc == 0 && binaryOperators["!="].op == "!=" && binaryOperators["<"].precedence == 20 && binaryOperators["<"].assoc == 0 && binaryOperators["<"].op == "<" && binaryOperators["<="].precedence == 20 && binaryOperators["<="].assoc == 0 && binaryOperators["<="].op == "<=" && binaryOperators[">"].precedence == 20 && binaryOperators[">"].assoc == 0 && binaryOperators[">"].op == ">" && binaryOperators[">="].precedence == 20 && binaryOperators[">="].assoc == 0 && binaryOperators[">="].op == ">=" && binaryOperators["not in"].precedence == 20 && binaryOperators["not in"].assoc == 0 && binaryOperators["not in"].op == "not in" && binaryOperators["in"].precedence == 20 && binaryOperators["in"].assoc == 0 && binaryOperators["in"].op == "in" && binaryOperators["matches"].precedence == 20 && binaryOperators["matches"].assoc == 0 && binaryOperators["matches"].op == "matches" && binaryOperators["starts with"].precedence == 20 && binaryOperators["starts with"].assoc == 0 && binaryOperators["starts with"].op == "starts with" && binaryOperators["ends with"].precedence == 20 && binaryOperators["ends with"].assoc == 0 && binaryOperators["ends with"].op == "ends with" && binaryOperators[".."].precedence == 20 && binaryOperators[".."].assoc == 0 && binaryOperators[".."].op == ".." && binaryOperators["+"].precedence == 30 && binaryOperators["+"].assoc == 0 && binaryOperators["+"].op == "+" && binaryOperators["-"].precedence == 30 && binaryOperators["-"].assoc == 0 && binaryOperators["-"].op == "-" && binaryOperators["~"].precedence == 40 && binaryOperators["~"].assoc == 0 && binaryOperators["~"].op == "~" && binaryOperators["*"].precedence == 60 && binaryOperators["*"].assoc == 0 && binaryOperators["*"].op == "*" && binaryOperators["/"].precedence == 60 && binaryOperators["/"].assoc == 0 && binaryOperators["/"].op == "/" && binaryOperators["//"].precedence == 60 && binaryOperators["//"].assoc == 0 && binaryOperators["//"].op == "//" && binaryOperators["%"].precedence == 60 && binaryOperators["%"].assoc == 0 && binaryOperators["%"].op == "%" && binaryOperators["is"].precedence == 100 && binaryOperators["is"].assoc == 0 && binaryOperators["is"].op == "is" && binaryOperators["is not"].precedence == 100 && binaryOperators["is not"].assoc == 0 && binaryOperators["is not"].op == "is not" && binaryOperators["**"].precedence == 200 && binaryOperators["**"].assoc == 1 && binaryOperators["**"].op == "**"
 //@   ensures unary: unaryOperators["not"].precedence == 50 && unaryOperators["not"].op == "not" && unaryOperators["+"].precedence == 500 && unaryOperators["+"].op == "+" && unaryOperators["-"].precedence == 500 && unaryOperators["-"].op == "-"
 //@ mapframe map[string]operator only parse.init
+
+// C18: inside one Parse the tokeniser goroutine and the parser share the lexer object: the parser side writes the
+// field last only (nextToken), the tokeniser side never writes it and is the only writer of every other field
+//@ fieldframe parse.lexer.last only parse.(*lexer).nextToken
+//@ fieldframe parse.lexer only parse.lex*, parse.(*lexer).*, parse.newLexer
+//@ globalframe only parse.init, parse.init#1
